@@ -7,6 +7,7 @@ CONSTANTS
   MaxStalls = 0
   MaxAsk = 0
   AskSelectsQuit = TRUE
+  ResetStopsUnderLock = FALSE
   FixCallEntry = TRUE
   FixResetSnapshot = FALSE
   FixRemoveOwn = TRUE
